@@ -99,6 +99,7 @@ def run(ctx):
         "unsafe code; by Rust's aliasing rules nothing reachable from `&InsertionContext` can then be written. Consistency of the "
         "result is decided for its structural parts: typestate (no stale hand-over, shared with C05-T1), locked-job guards "
         "(C01-L1) and job conservation (C02-P1/P2) are evaluated here as well.")
+    ctx.explanation += " The decomposition hands the parent's pending pools to one partial context only (shared rule C02-D1)."
     ctx.not_decided = "that assigned jobs satisfy all constraints after each operator (value-level); order of multi-part jobs."
     ctx.assumptions += ["rustc's borrow checker and aliasing model (trusted base)", "external crates (rayon, rand, std) do not mutate through & without interior mutability",
                         "user-supplied trait objects (custom Random/Quota/logger) are outside the workspace"]
